@@ -6,6 +6,7 @@ CONSTANTS
   FailNs = {}
   PruneTs = {}
   RgsSnaps = {}
+  ResolveCs = {}
   WithReload = FALSE
 CONSTRAINT Bound
 VIEW View
